@@ -42,6 +42,9 @@ pub enum ChanFault {
     NeutralField(usize),
     /// evaluation slot j (0..15) re-encoded non-canonically as value + r
     EvalPlusModulus(usize),
+    /// commitment slot i (0..11): games with the three flag bits / non-canonical forms of the
+    /// compressed G1 encoding (variant 0..8)
+    CommFlagGame(usize, usize),
     PiReplace(usize, Sc),
     PiAddOne(usize),
     PiSubOne(usize),
@@ -70,6 +73,7 @@ impl ChanFault {
             ChanFault::FreshField(_) => "chan.fresh_field",
             ChanFault::NeutralField(_) => "chan.neutral_field",
             ChanFault::EvalPlusModulus(_) => "chan.eval_plus_modulus",
+            ChanFault::CommFlagGame(..) => "chan.commitment_flag_game",
             ChanFault::PiReplace(..) => "chan.pi_replace",
             ChanFault::PiAddOne(_) => "chan.pi_plus_one",
             ChanFault::PiSubOne(_) => "chan.pi_minus_one",
@@ -184,6 +188,55 @@ pub fn apply(msg: &Msg, fault: &ChanFault, other: Option<&Msg>, rng: &mut Rng) -
                 }
             }
         }
+        ChanFault::CommFlagGame(i, variant) => {
+            if m.proof.len() >= PROOF_SIZE {
+                let r = field_range(i % N_COMMS);
+                let slot = &mut m.proof[r];
+                // the base-field modulus, big-endian (the compressed encoding is big-endian x with flags in the top bits)
+                const P: [u8; 48] = [
+                    0x1a, 0x01, 0x11, 0xea, 0x39, 0x7f, 0xe6, 0x9a, 0x4b, 0x1b, 0xa7, 0xb6, 0x43, 0x4b, 0xac, 0xd7, 0x64, 0x77, 0x4b, 0x84, 0xf3, 0x85, 0x12, 0xbf, 0x67, 0x30, 0xd2, 0xa0,
+                    0xf6, 0xb0, 0xf6, 0x24, 0x1e, 0xab, 0xff, 0xfe, 0xb1, 0x53, 0xff, 0xff, 0xb9, 0xfe, 0xff, 0xff, 0xff, 0xff, 0xaa, 0xab,
+                ];
+                match variant % 9 {
+                    // infinity flag over the coordinate bytes that are there
+                    0 => slot[0] = 0xc0,
+                    // infinity flag, one stray low bit
+                    1 => {
+                        for b in slot.iter_mut() {
+                            *b = 0;
+                        }
+                        slot[0] = 0xc0;
+                        slot[47] = 1;
+                    }
+                    // infinity flag added to a finite point
+                    2 => slot[0] |= 0x40,
+                    // compression flag cleared
+                    3 => slot[0] &= 0x7f,
+                    // identity with the sort flag
+                    4 => {
+                        for b in slot.iter_mut() {
+                            *b = 0;
+                        }
+                        slot[0] = 0xe0;
+                    }
+                    // x = p (a non-reduced zero) with the compression flag
+                    5 => {
+                        slot.copy_from_slice(&P);
+                        slot[0] |= 0x80;
+                    }
+                    // infinity flag over a random tail byte
+                    6 => {
+                        slot[0] = 0xc0;
+                        let k = 1 + rng.usize(47);
+                        slot[k] ^= 1 << rng.below(8);
+                    }
+                    // all flags set
+                    7 => slot[0] |= 0xe0,
+                    // x + p where that still fits 381 bits: only if x is small; else the sort flag flipped (the other root)
+                    _ => slot[0] ^= 0x20,
+                }
+            }
+        }
         ChanFault::EvalPlusModulus(j) => {
             if m.proof.len() == PROOF_SIZE {
                 // r, little-endian
@@ -257,8 +310,9 @@ pub fn apply(msg: &Msg, fault: &ChanFault, other: Option<&Msg>, rng: &mut Rng) -
 
 /// A random proof-side fault.
 pub fn random_proof_fault(rng: &mut Rng) -> ChanFault {
-    match rng.below(13) {
+    match rng.below(15) {
         12 => ChanFault::EvalPlusModulus(rng.usize(N_EVALS)),
+        13 | 14 => ChanFault::CommFlagGame(rng.usize(N_COMMS), rng.usize(9)),
         0 | 1 | 2 => ChanFault::BitFlip(rng.usize(PROOF_SIZE * 8)),
         3 => ChanFault::MultiBitFlip((0..2 + rng.usize(3)).map(|_| rng.usize(PROOF_SIZE * 8)).collect()),
         4 => ChanFault::Truncate(rng.usize(PROOF_SIZE)),
